@@ -27,6 +27,7 @@ type propSpec struct {
 	NotDecided string
 	Technique  string
 	DesignRef  string
+	QuickArchs []string
 }
 
 var propTable = map[string]*propSpec{}
@@ -89,6 +90,15 @@ func archsFor(tier string) []string {
 		return []string{"amd64", "arm64", "386"}
 	}
 	return []string{"amd64"}
+}
+
+// archsOf: the quick tier of a property whose clauses differ per target (word-size branches of the
+// codecs, the architecture siblings of the 16-lane routines) looks at those targets as well.
+func archsOf(spec *propSpec, tier string) []string {
+	if tier != "thorough" && spec != nil && len(spec.QuickArchs) > 0 {
+		return spec.QuickArchs
+	}
+	return archsFor(tier)
 }
 
 func main() {
@@ -248,7 +258,7 @@ type merged struct {
 func evaluate(spec *propSpec, tier string, extra map[string][]byte) (obls []*Obligation, notes, assume, exceptions []string, files []string, nfuncs int, err error) {
 	byKey := map[string]*merged{}
 	var order []string
-	for _, arch := range archsFor(tier) {
+	for _, arch := range archsOf(spec, tier) {
 		l, lerr := load(loadOpts{arch: arch, extra: extra})
 		if lerr != nil {
 			return nil, nil, nil, nil, nil, 0, lerr
@@ -376,7 +386,7 @@ func checkProperty(prop, tier string, seed int, dump bool) int {
 		rs = append(rs, fmt.Sprintf("%s:%d", r, perRule[r]))
 	}
 	fmt.Printf("artcheck %s tier=%s archs=%s: %d obligations (%s), %d discharged, %d known findings, %d violations\n",
-		prop, tier, strings.Join(archsFor(tier), ","), len(obls), strings.Join(rs, " "), ndis, len(knownHit), nviol)
+		prop, tier, strings.Join(archsOf(spec, tier), ","), len(obls), strings.Join(rs, " "), ndis, len(knownHit), nviol)
 	for _, n := range notes {
 		fmt.Println("  note:", n)
 	}
@@ -461,7 +471,7 @@ func writeEvidence(path string, spec *propSpec, tier string, seed int, obls []*O
 		"packages":            []string{"github.com/Clement-Jean/go-art", "…/cmd/go-art", "…/examples"},
 		"files":               files,
 		"functions_analysed":  nfuncs,
-		"architectures":       archsFor(tier),
+		"architectures":       archsOf(spec, tier),
 		"exceptions":          exceptions,
 		"notes":               notes,
 		"known_findings":      knownHit,
